@@ -77,6 +77,7 @@ type Trace struct {
 	CloseCtx   []string    `json:"close_context"`
 	Left       []string    `json:"goroutines_left"`
 	Notes      []string    `json:"notes"`
+	Oracles    []string    `json:"oracles"`
 	Dump       string      `json:"blocked_goroutines,omitempty"`
 }
 
@@ -255,6 +256,7 @@ type runner struct {
 	left       []string
 	bubble     string
 	endAt      time.Duration
+	orcLog     []string
 	partial    func(*Result)
 }
 
@@ -264,6 +266,13 @@ func ms(d time.Duration) int64 { return int64(d / time.Millisecond) }
 
 func (r *runner) note(f string, a ...any) {
 	r.notes = append(r.notes, fmt.Sprintf("[%d ms] ", ms(r.now()))+fmt.Sprintf(f, a...))
+}
+
+// orc records what an oracle expected and what it observed (replay output).
+func (r *runner) orc(f string, a ...any) {
+	r.mu.Lock()
+	r.orcLog = append(r.orcLog, fmt.Sprintf(f, a...))
+	r.mu.Unlock()
 }
 
 func (r *runner) fail(oracle, sig, detail string) {
@@ -340,7 +349,7 @@ func (r *runner) result(partial bool) *Result {
 	}
 	if r.trace {
 		tr := &Trace{Ops: r.opTr, CloseStart: ms(r.closeStart), CloseRet: ms(r.closeRet), CloseCtx: r.closeCtx,
-			Left: r.left, Notes: r.notes, Dump: r.dump}
+			Left: r.left, Notes: r.notes, Dump: r.dump, Oracles: r.orcLog}
 		if r.closeStart < 0 {
 			tr.CloseStart = -1
 		}
@@ -380,6 +389,8 @@ func (r *runner) describe(e *expect) string {
 	st := ""
 	if e.void != "" {
 		st = " (not enforced: " + e.void + ")"
+	} else if !r.strict {
+		st = " (not enforced for C06)"
 	} else if !e.strict {
 		st = " (not enforced: queue may overflow)"
 	}
